@@ -318,6 +318,10 @@ class DocSUT:
             self.store = st
             self.src_pk = pk
             self.src = {"kind": "template", "path": None, "packaging": "zip"}
+            if init.get("template_changes_later"):
+                other = os.path.join(SAMPLES, "note.odt" if fname != "note.odt" else "list.odt")
+                shutil.copyfile(other, local)
+                simenv.env().touch(local)
             return
         self.open_artifact(local, how, init.get("salt", 0))
 
